@@ -41,4 +41,7 @@ def check(model, tier):
     from ..rules import structure as _structure
 
     _structure.r14_9_engine_plumbing(ctx, rule="R15.4")
+    from ..rules.foundation import run_foundation
+
+    run_foundation(ctx, "15")
     return run
